@@ -862,7 +862,14 @@ func main() {
 		e.newKeeper(n)
 		h.Emit(fmt.Sprintf("reset %d", n), "ok")
 		h.Emit("dump", e.dump())
-		if h.Rng.Intn(4) != 0 {
+		if s%6 == 2 {
+			// a batch action over ALL states while a space plots, then requests for that space before its plot ends
+			// (whatever a batch action does to the plotter's bookkeeping, the plotting space's requests still work)
+			batch := []string{"remove", "delete", "stop", "mine", "plot"}[h.Rng.Intn(5)]
+			after := [][]string{{"stop 0"}, {"mine 0"}, {"plot 0"}, {"mine 0", "stop 0"}}[h.Rng.Intn(4)]
+			script := append([]string{"keeperstart", "plot 0", "recv", "pop", "step1", fmt.Sprintf("bulk %s 15", batch)}, after...)
+			e.replay(script)
+		} else if h.Rng.Intn(4) != 0 {
 			e.start()
 		}
 		steps := 8 + h.Rng.Intn(h.Len)
